@@ -786,9 +786,14 @@ func (w *World) exec(op *Op) (done bool) {
 			i = (op.S - 1) % len(w.snaps)
 		}
 		sh := w.snaps[i]
-		if w.isVisiting(sh) {
+		if w.isVisiting(sh) && w.file != nil {
 			w.ev["skipped_close_of_visited_handle"]++
-			return true // closing a store from inside its own visit is a caller error
+			return true // closing a file-backed store from inside its own visit is a caller error (Close drops the file the visit reads from)
+		}
+		if w.isVisiting(sh) {
+			// memory-only: the visit holds its own pin and needs no file, so releasing the
+			// snapshot under it is one more "order of releasing readers and snapshots"
+			w.ev["snapclose_inside_own_visit"]++
 		}
 		sh.st.Close()
 		sh.closed = true
